@@ -1304,10 +1304,9 @@ class BaseAuxVarOptimizer(BaseNonConvexOptimizer):
 
         mapping = {}
         for i, unq in zip(sorted(self._n + i for i in self._rvs | self._crvs), self._unqs):
-            if len(unq.inverse) > 1:
-                n = d.outcome_length()
-                d = insert_rvf(d, lambda o: unq.inverse[o[i]])
-                mapping[i] = tuple(range(n, n + len(unq.inverse[0])))
+            n = d.outcome_length()
+            d = insert_rvf(d, lambda o: unq.inverse[o[i]])
+            mapping[i] = tuple(range(n, n + len(unq.inverse[0])))
 
         new_map = {}
         for rv, rvs in zip(sorted(self._rvs), self._true_rvs):
